@@ -76,8 +76,8 @@ def observe_case(spec):
     from lark.reconstruct import Reconstructor
     from lark.exceptions import UnexpectedInput
     from lark.utils import is_id_continue
-    G = spec['G']
-    gtext = E.grammar_text(G)
+    G = spec.get('G')
+    gtext = spec['gtext'] if 'gtext' in spec else E.grammar_text(G)
     case = {'gtext': gtext, 'skip': '', 'trees': [], 'spec': spec, 'ph': False, 'start': 'start', 'written_ok': True}
     try:
         with O.budget(30):
@@ -120,6 +120,10 @@ def observe_case(spec):
                         items.append(str(x))
                         yield x
                 out = rec.reconstruct(tree, postproc=post)
+                # one Reconstructor serves many trees: what it writes for a tree may not depend on the trees it saw before
+                fresh = Reconstructor(p).reconstruct(tree, postproc=lambda xs: xs)
+                if fresh != out:
+                    case['history_dependent'] = case.get('history_dependent', []) + [[text, out, fresh]]
             pos = 0
             for i, it in enumerate(items):
                 pos += len(it)
@@ -163,6 +167,16 @@ def specs(tier, rng):
                    {'name': 'x', 'expand1': False, 'keepall': False, 'alts': [{'alias': '', 'body': E.seq([A, C_])}, {'alias': 'al1', 'body': A}]}],
          'term_defs': TERM_DEFS}
     out.append({'G': G, 'texts': ['a', 'a c', 'd a', 'd a a']})
+    # corpus: expression / call grammars whose statements are reconstructed one after the other by the same Reconstructor, in
+    # every order (the matcher keeps state between trees)
+    EXPR = ('start: stmt+\nstmt: NAME "=" sum ";" | call ";"\ncall: NAME "(" (sum ("," sum)*)? ")"\n?sum: product | sum "+" product\n'
+            '?product: atom | product "*" atom\n?atom: NUM | NAME | call | "(" sum ")"\nNAME: /[e-z]+/\nNUM: /[0-9]+/\n%ignore " "\n')
+    stmts = ['x = e + f ;', 'g ( e , f , h ) ;', 'y = e * f + 2 ;', 'k ( ) ;', 'z = ( e + f ) * g ( h , 1 ) ;', 'm ( e + f , g * h , i , j ) ;', 'w = q ;']
+    import itertools
+    orders = list(itertools.permutations(range(len(stmts)), 3))
+    rng.shuffle(orders)
+    for o in orders[:C.scale(60 if tier == 'quick' else 210)]:
+        out.append({'gtext': EXPR, 'texts': [stmts[i] for i in o] + [' '.join(stmts[i] for i in o)], 'ordered': True})
     return out
 
 
@@ -203,9 +217,10 @@ def judge(cases, ev, rep, tmp, name):
             c = chunk[int(v[0]) - 1]
             t = c['trees'][int(v[1]) - 1]
             sp = dict(c['spec'])
-            sp['texts'] = [t['text']]
+            if not sp.get('ordered'):                 # ordered corpora: the earlier trees are part of the failing history
+                sp['texts'] = [t['text']]
             rep.violation({'property': PID, 'clause': v[2], 'grammar': c['gtext'], 'text': t['text'], 'reconstructed': t['out'], 'raised': t['raised'],
-                           'alias_shared': alias_shared(c['spec']['G']), 'spec': sp})
+                           'alias_shared': alias_shared(c['spec']['G']) if 'G' in c['spec'] else False, 'spec': sp})
 
 
 def body(tier, seed, replay):
@@ -223,6 +238,8 @@ def body(tier, seed, replay):
             ev.count('grammars')
             ev.count('unambiguous_grammars', 1 if c['unambiguous'] else 0)
             ev.count('trees', len(c['trees']))
+            ev.count('trees_written_differently_by_a_fresh_reconstructor', len(c.get('history_dependent', [])))
+            ev.count('ordered_histories', 1 if c['spec'].get('ordered') else 0)
             ev.count('round_trips_ok', sum(1 for t in c['trees'] if t['same']))
             ev.count('blanks_inserted', sum(len(t['blanks']) for t in c['trees']))
         ev.cov['traces_validated_against_impl'] = ev.cov['counts'].get('trees', 0)
